@@ -88,14 +88,30 @@ def regen_facts():
 
 
 def theorem_names(prop):
-    """theorems of Props/Cxx.lean and Tie/Cxx.lean, fully qualified"""
+    """theorems of Props/Cxx.lean and Tie/Cxx.lean, fully qualified (tracks namespace / section nesting)"""
     names = []
-    for sub, ns in (("Props", "Tally.Props."), ("Tie", "Tally.Tie.")):
+    for sub in ("Props", "Tie"):
         p = os.path.join(LEAN, "TallyProofs", sub, prop + ".lean")
         if not os.path.exists(p):
             continue
-        for m in re.finditer(r"^theorem\s+([A-Za-z0-9_'.]+)", open(p).read(), re.M):
-            names.append((sub, ns + prop + "." + m.group(1)))
+        stack = []  # (kind, name)
+        for line in strip_comments(open(p).read()).split("\n"):
+            m = re.match(r"^\s*(namespace|section)\s*([A-Za-z0-9_'.]*)\s*$", line)
+            if m:
+                stack.append((m.group(1), m.group(2)))
+                continue
+            m = re.match(r"^\s*end\s*([A-Za-z0-9_'.]*)\s*$", line)
+            if m and stack:
+                stack.pop()
+                continue
+            m = re.match(r"^\s*(?:@\[[^\]]*\]\s*)?(?:private\s+|protected\s+)?theorem\s+([A-Za-z0-9_'.]+)", line)
+            if m:
+                ns = ".".join(n for k, n in stack if k == "namespace" and n)
+                nm = m.group(1)
+                if nm.startswith("_root_."):
+                    names.append((sub, nm[len("_root_."):]))
+                else:
+                    names.append((sub, (ns + "." if ns else "") + nm))
     return names
 
 
@@ -159,7 +175,7 @@ def lean_stage(prop, tier):
         res["ok"] = False
         res["broken"].append("axiom audit failed: " + out[-500:])
         return res
-    for m in re.finditer(r"'([^']+)' (does not depend on any axioms|depends on axioms: \[([^\]]*)\])", out.replace("\n", " ")):
+    for m in re.finditer(r"'(\S+)' (does not depend on any axioms|depends on axioms: \[([^\]]*)\])", out.replace("\n", " ")):
         axs = set(a.strip() for a in (m.group(3) or "").split(",") if a.strip())
         res["axioms"][m.group(1)] = sorted(axs)
         if axs - ALLOWED_AXIOMS:
